@@ -35,8 +35,10 @@ def generate(seed, tier="quick", mode=None, **kw):
         o["words"] = [w for w in o["words"] if len(w) >= 5] or None
     nid = r.randint(2, 6)
     odd_salt = bool(o["salt"]) and o["salt"][0] not in G.J9_ALPHA or o["salt"] == ""
-    secrets = GC.gen_secrets(r, nid, classes=(["j9p", "j9p", "c9", "j9p-num", "text", "md5"] if odd_salt else None),
-                             words=o["words"] or ())
+    cls_list = ["j9p", "j9p", "c9", "j9p-num", "text", "md5"] if odd_salt else None
+    if mode == "c08" and r.random() < 0.25:
+        cls_list = ["text", "text", "num", "hex", "t7", "md5", "j9p", "pseudo", "pseudo", "rwc"]
+    secrets = GC.gen_secrets(r, nid, classes=cls_list, words=o["words"] or ())
     ctx = GC.make_ctx(r, o)
     nfiles = r.randint(1, 6)
     paths, dirs, _ = GC.gen_tree(r, nfiles, hidden=False, dirs=r.random() < 0.5)
@@ -355,6 +357,8 @@ def _check_c07(plan):
         logblob = "\n".join(m + "\n" + tb for lv, m, tb in h["logs"]) + "\n" + h.get("stdout", "") + "\n" + h.get("stderr", "")
         for ident, s in sorted(plan["secrets"].items()):
             val = s[which]
+            if s["cls"] in ("rwc", "pseudo"):
+                continue        # dictionary-like values: judged at their positions (clause c), not by substring
             probes["leak_scans"] += 1
             if val.encode("utf-8") in blob:
                 V.append({"prop": "C07", "tag": "secret-in-output",
